@@ -240,6 +240,7 @@ def nontrivial(sd):
 PROBES = {
     "named-aggregate-of-select": "SCHEMA probe_zs;\nTYPE zs = LIST [0:?] OF sel;\nEND_TYPE;\nTYPE r = REAL;\nEND_TYPE;\nTYPE i = INTEGER;\nEND_TYPE;\nTYPE sel = SELECT (r, i);\nEND_TYPE;\nENTITY e1;\n  a : zs;\nEND_ENTITY;\nEND_SCHEMA;\n",
     "entity-named-like-header-entity": "SCHEMA probe_hdr;\nENTITY file_name;\n  shape : REAL;\nEND_ENTITY;\nENTITY user;\n  f : file_name;\nEND_ENTITY;\nEND_SCHEMA;\n",
+    "enumeration-named-like-library-class": "SCHEMA probe_reg;\nTYPE registry = ENUMERATION OF (thing, name);\nEND_TYPE;\nENTITY e;\n  x : registry;\nEND_ENTITY;\nEND_SCHEMA;\n",
     "schema-named-cxx-keyword": "SCHEMA typedef;\nTYPE m = ENUMERATION OF (a, b);\nEND_TYPE;\nENTITY e;\n  x : m;\nEND_ENTITY;\nEND_SCHEMA;\n",
 }
 
